@@ -66,34 +66,39 @@ func (s *c19Sys) Key() string {
 func (s *c19Sys) Close() {}
 
 func runC19(c *fw.Ctx) {
-	depth := c.Pick(3, 4)
+	depth := absDevDepth(c, c.Pick(3, 4))
 	c.Bound("depth", depth)
 	u := absUniverse("sha1")
-	ops := repoOps(u)
+	ops := repoOps(u, "view before commit")
 	var names []string
 	for _, o := range ops {
 		names = append(names, o.name)
 	}
 	c.Bound("ops", names)
-	c.SetRule("all histories up to depth over the shared menu {SetRef/SetSymRef (retarget, detach HEAD, hash->symbolic, nested name), CheckAndSet (current/stale/absent/old=nil/symbolic old), RemoveRef, SetObject (new, already loose in base, already packed in base, commit), WritePack (blobs+tag), SetIndex (entry/empty), SetShallow (value/empty), SetConfig, AppendReflog (two names), DeleteReflog} through transactional.NewStorage(base, temporal) with base and temporal each in {memory, filesystem on mcfs}; the base is preloaded with hash/symbolic refs, loose objects (one empty), a pack (blob+tree), an index, a shallow list, a config and a reflog; after every history: every read/listing through the transaction (refs point+listing, objects has/size/untyped/typed/wrong-typed/repeated read + listing per type with multiplicity, index entries, shallow, config, reflogs) equals base(+)pending (model), the base read directly is unchanged, then Commit and the base equals the view (filesystem bases also through a freshly opened instance); every history is replayed on fresh instances (no merging); distinct = distinct model views")
+	c.SetRule("all histories up to depth over the shared menu {ReadAll (a full mid-history read compared with the model, so that later writes meet warm caches and lists), SetRef/SetSymRef (retarget, detach HEAD, hash->symbolic, nested name), CheckAndSet (current/stale/absent/old=nil/symbolic old), RemoveRef, SetObject (new, already loose in base, already packed in base, commit), WritePack (blobs+tag), SetIndex (entry/empty), SetShallow (value/empty), SetConfig, AppendReflog (two names), DeleteReflog} through transactional.NewStorage(base, temporal) with base and temporal each in {memory, filesystem on mcfs}; the base is preloaded with hash/symbolic refs (filesystem base: a packed only, b packed and loose), loose objects (one empty), a pack (blob+tree), an index, a shallow list, a config and a reflog; after every history: every read/listing through the transaction (refs point+listing, objects has/size/untyped/typed/wrong-typed/repeated read + listing per type with multiplicity, abbreviated-id expansion, index entries, shallow, config, reflogs) equals base(+)pending (model), the base read directly is unchanged, then Commit and the base equals the view (filesystem bases also through a freshly opened instance); every history is replayed on fresh instances (no merging); distinct = distinct model views")
 	c.Assume("sha1 object format; error kind of a failed CheckAndSet left open; CheckAndSet with a symbolic old value against a symbolic reference with another target left open; iteration order compared as a multiset; CountLooseRefs/PackRefs/Module/AddAlternate of the transaction not compared")
 	type pairing struct {
 		base, temporal string
 		depth          int
 	}
-	// the menu never behaves differently per temporal kind in the model, so the
-	// cross pairings run one level shallower in the quick tier
+	// the pairings with a filesystem temporal storage run one level shallower
 	pairs := []pairing{{"memory", "memory", depth}, {"filesystem", "memory", depth}, {"filesystem", "filesystem", depth - 1}, {"memory", "filesystem", depth - 1}}
 	if c.Thorough() {
-		pairs = []pairing{{"memory", "memory", depth}, {"filesystem", "memory", depth}, {"filesystem", "filesystem", depth}, {"memory", "filesystem", depth - 1}}
+		pairs = []pairing{{"memory", "memory", depth}, {"filesystem", "memory", depth}, {"filesystem", "filesystem", depth - 1}, {"memory", "filesystem", depth - 1}}
 	}
 	var pb []string
 	for _, p := range pairs {
 		pb = append(pb, fmt.Sprintf("base=%s,temporal=%s,depth=%d", p.base, p.temporal, p.depth))
 	}
 	c.Bound("pairings", pb)
+	// the filesystem base holds a only in packed-refs and b both packed and loose
 	fsBase := mcfs.NewWorld()
-	preloadRepo(u, filesystem.NewStorage(fsBase.View("/g", "g"), cache.NewObjectLRUDefault()))
+	{
+		st := filesystem.NewStorage(fsBase.View("/g", "g"), cache.NewObjectLRUDefault())
+		preloadRepo(u, st)
+		c.Must(st.PackRefs(), "C19: packing the base's references")
+		c.Must(st.SetReference(plumbing.NewHashReference(absRefB, u.h["h1"])), "C19: loose copy of b")
+	}
 	total := histx.Result{}
 	for _, p := range pairs {
 		p := p
@@ -118,10 +123,9 @@ func runC19(c *fw.Ctx) {
 				}
 				s.view = s.baseIni.clone()
 				s.tx = transactional.NewStorage(s.base, temporal)
-				_, s.hasRL = s.tx.(reflogStorer)
-				if !s.hasRL {
-					fw.Abort("C19: transactional storage over %s/%s has no reflog", p.base, p.temporal)
-				}
+				// every base and temporal kind used here stores reflogs, so the
+				// transaction must as well: the expectation always has them
+				s.hasRL = true
 				return s
 			},
 			Classify: func(hist []string, where, e, g string) string {
@@ -138,7 +142,7 @@ func runC19(c *fw.Ctx) {
 		if !res.Complete {
 			c.Incomplete(fmt.Sprintf("base=%s,temporal=%s: depth %d only", p.base, p.temporal, res.MaxDepth))
 		}
-		c.Sample(map[string]any{"base": p.base, "temporal": p.temporal, "histories": res.Histories, "example_history": []string{names[0], names[6], names[14]}})
+		c.Sample(map[string]any{"base": p.base, "temporal": p.temporal, "histories": res.Histories, "example_history": []string{names[1], names[7], names[15]}})
 	}
 	c.States(total.States)
 	c.Transitions(total.Transitions)
